@@ -23,7 +23,8 @@ RULE = (
     "enumerated case = (sequence, pattern); each case sweeps the grid missed 0-3 x min 1-4 x max {min, 4|6, 50} x clip x "
     "semi. quick: all sequences over {K,P,M,A} of length 1-6 x 3 patterns; thorough: all sequences over {K,P,A} with "
     "optional leading M up to length 10 x 4 patterns. Random case = sequence up to length 120 over 20 residues x "
-    "drawn pattern and parameters. Non-trivial: >=2 cleavage sites inside the sequence or a match ending at the last "
+    "drawn pattern and parameters, half of them also through read_fasta (a four-entry database built around the sequence; "
+    "unique + shared peptides = union of the entries' digests). Non-trivial: >=2 cleavage sites inside the sequence or a match ending at the last "
     "residue or a leading M with clip. Distinct = distinct (sequence, pattern, parameters)."
 )
 ASSUMPTIONS = [
@@ -101,6 +102,37 @@ def _check_one(fasta, seq, pat, missed, mn, mx, clip, semi):
     return got
 
 
+def _check_read_fasta(fasta, case, direct):
+    """The FASTA entry point digests with the same options: the peptides it knows (unique or shared) for a database made
+    of this sequence, a second protein and their reversed decoys are exactly the digests of those sequences."""
+    from core import scratch_dir
+
+    seq, pat = case["seq"], case["pat"]
+    missed, mn, mx, clip, semi = case["missed"], case["min"], case["max"], case["clip"], case["semi"]
+    other = seq[len(seq) // 2:] + "GASTK" + seq[:len(seq) // 3]
+    entries = [("sp|T1|FIRST", seq), ("sp|T2|SECOND", other), ("decoy_sp|T1|FIRST", seq[::-1]), ("decoy_sp|T2|SECOND", other[::-1])]
+    req, allowed = set(), set()
+    for _, sq in entries:
+        r, a = digest_ref(sq, pat, missed, mn, mx, clip, semi)
+        req |= r
+        allowed |= a
+    if not any(digest_ref(sq, pat, missed, mn, mx, clip, semi)[0] for _, sq in entries[:2]):
+        return 0  # no target yields a peptide: read_fasta has nothing to report
+    with scratch_dir() as tmp:
+        path = tmp / "db.fasta"
+        path.write_text("".join(f">{n} descr\n" + "\n".join(sq[i:i + 60] for i in range(0, len(sq), 60)) + "\n" for n, sq in entries))
+        prot = guarded(fasta.read_fasta, str(path), enzyme=(re.compile(pat) if len(seq) % 2 else pat), missed_cleavages=missed,
+                       clip_nterm_methionine=clip, min_length=mn, max_length=mx, semi=semi, decoy_prefix="decoy_", sig="read_fasta")
+    got = set(prot.peptide_map) | set(prot.shared_peptides)
+    par = f"read_fasta seq={seq!r} enzyme={pat!r} missed={missed} min={mn} max={mx} clip={clip} semi={semi}"
+    missing = req - got
+    require(not missing, "peptide-missing", f"{par}: database lacks {sorted(missing)[:5]} ({len(missing)} in all)")
+    extra = got - allowed
+    require(not extra, "peptide-not-allowed", f"{par}: database holds {sorted(extra)[:5]}")
+    require(direct <= got, "peptide-missing", f"{par}: peptides returned by digest() are not in the database: {sorted(direct - got)[:5]}")
+    return 1
+
+
 def check(case):
     from mokapot.parsers import fasta
 
@@ -134,6 +166,8 @@ def check(case):
             g4 = _check_one(fasta, seq, pat, missed, mn, mx, clip, True)
             require(g <= g4, "monotone-semi", f"seq={seq!r}: semi loses peptides")
         ndig = 3
+        if case.get("via_fasta"):
+            ndig += _check_read_fasta(fasta, case, g)
     ends = [m.end() for m in re.finditer(pat, seq)]
     inner = [e for e in ends if 0 < e < len(seq)]
     classes = [pat]
@@ -143,6 +177,8 @@ def check(case):
         classes.append("leading-M")
     if 0 in ends:
         classes.append("match-at-start")
+    if case.get("via_fasta"):
+        classes.append("via-read_fasta")
     nontrivial = len(inner) >= 2 or len(seq) in ends or seq.startswith("M")
     return {"nontrivial": nontrivial, "classes": classes, "counters": {"digests_compared": ndig}}
 
@@ -187,6 +223,7 @@ def _case(draw, tier):
         "max": draw(st.integers(mn, mn + 45)),
         "clip": draw(st.booleans()),
         "semi": draw(st.booleans()),
+        "via_fasta": draw(st.sampled_from([False, True])),
     }
 
 
